@@ -203,6 +203,7 @@ class VM:
 
     def _stmt(self, s: ast.stmt, st: State, frame):
         line = getattr(s, "lineno", 0)
+        self._cur_env = st.env
         if st.raised is not None:
             yield st, "raise", st.raised[0], st.raised[1]
             return
@@ -374,7 +375,7 @@ class VM:
             for ch in ast.iter_child_nodes(n):
                 parents[ch] = n
         for n in ast.walk(s):
-            if isinstance(n, ast.Name) and n.id == "interpreter":
+            if isinstance(n, ast.Name) and n.id in self._interp_names():
                 p = parents.get(n)
                 if not (isinstance(p, ast.Attribute) and p.attr == "memory"):
                     return False
@@ -385,9 +386,15 @@ class VM:
                     return False
         return True
 
+    def _interp_names(self) -> set:
+        env = getattr(self, "_cur_env", {}) or {}
+        names = {k for k, v in env.items() if isinstance(v, ObjRef) and v.what in ("interpreter", "stack", "memory", "module_body")}
+        return names or {"interpreter"}
+
     def _touches_vm(self, s: ast.AST) -> bool:
+        inames = self._interp_names()
         for n in ast.walk(s):
-            if isinstance(n, ast.Name) and n.id == "interpreter":
+            if isinstance(n, ast.Name) and n.id in inames:
                 return True
             if isinstance(n, ast.Attribute) and n.attr in ("stack", "memory", "module_body"):
                 return True
